@@ -26,6 +26,7 @@ def _read_units():
     out = []
     for cls in ('DynGraph', 'DynDiGraph'):
         out.append(('contracts.readside', 'TemporalSnapshotsIds', (cls,), {}))
+        out.append(('contracts.readside', 'AvgNumberOfNodes', (cls,), {}))
         for t in ('int', 'none'):
             out.append(('contracts.readside', 'InteractionsPerSnapshots', (cls,), {'t': t}))
     return out
@@ -120,7 +121,7 @@ PROOF_UNITS['C08'] = PROOF_UNITS['C08'] + _FW_C02
 PROOF_UNITS['C06'] = PROOF_UNITS['C06'] + _fw(['time_slice'])
 PROOF_UNITS['C05'] = PROOF_UNITS['C05'] + _fw(['stream_interactions'])
 PROOF_UNITS['C04'] = PROOF_UNITS['C04'] + _fw(['temporal_snapshots_ids', 'interactions_per_snapshots'])
-PROOF_UNITS['C17'] = PROOF_UNITS['C17'] + _fw(['inter_event_time_distribution'])
+PROOF_UNITS['C17'] = PROOF_UNITS['C17'] + _fw(['inter_event_time_distribution']) + [('contracts.readside', 'AvgNumberOfNodes', ('DynGraph',), {})]
 _C02_ACCUM = [u for u in PROOF_UNITS['C02'] if u[0] == 'contracts.neighbours' and u[3].get('mode') == 'accum']
 PROOF_UNITS['C08'] = PROOF_UNITS['C08'] + _C02_ACCUM
 
